@@ -502,10 +502,19 @@ class DuckColl(Generic[T]):
 def cb_evt_m(s, a):
     LOG.append(("evtmethod", ast.unparse(a)))
     return s.MetaData({"cb": "evtmethod"}), a
+def cb_rewrites(s, a):
+    # a callback that REWRITES its call site: one more argument (on a copy: the node it was handed stays as it was)
+    LOG.append(("rw", ast.unparse(a)))
+    new_a = copy.copy(a)
+    new_a.args = list(a.args) + [ast.Constant(value="calib")]
+    return s.MetaData({"cb": "rw"}), new_a
+import copy
 class Evt:
     def met(self) -> float: ...
     @func_adl_callback(cb_evt_m)
     def rho(self) -> float: ...
+    @func_adl_callback(cb_rewrites)
+    def cjets(self, name: str = "d") -> JetColl[Jet]: ...
     def djet(self) -> DataJet: ...
     def jets(self) -> JetColl[Jet]: ...
     def duck_jets(self) -> DuckColl[Jet]: ...
@@ -539,6 +548,12 @@ def q_prop_other(ds): return ds.Select("lambda e: e.ojet().attr['b'](2)")
 def q_default_stage(ds): return ds.Select("lambda e, *, k=scale_impl_c09(1.5, by=4.0): e.met() * k")
 # ... the default is evaluated where the nested lambda is WRITTEN: its own parameter (same name as the enclosing one) means nothing there
 def q_default_same_name(ds): return ds.Select("lambda j: j.jets().Select(lambda j, *, s=j.rho(): j.pt() * s)")
+# a helper / a called lambda that uses its parameter TWICE, given an argument with a rewriting call site below its top node: two
+# call sites in the query, each handed to the callback as written, each carrying the rewrite once
+def twice_c09(j): return j.pt() + j.pt()
+def q_twice_helper(ds): return ds.Select(lambda e: twice_c09(e.cjets().First()))
+def q_twice_called_lambda(ds): return ds.Select(lambda e: (lambda j: j.pt() + j.pt())(e.cjets().First()))
+def q_twice_nested(ds): return ds.Select(lambda e: e.jets().Select(lambda k: twice_c09(e.cjets().First())))
 # a VARIABLE of the query (a lambda parameter) that carries the name of a registered function and is called: no call site of that function
 def q_param_named_like_registered(ds): return ds.Select("lambda scale_impl_c09: scale_impl_c09(1.5)")
 def q_param_named_like_registered_nested(ds): return ds.Select("lambda e: e.jets().Select(lambda scale_impl_c09: scale_impl_c09(1.5))")
@@ -567,6 +582,9 @@ def directed(ctx):
         "q_default_stage": ([("func",)], ["func"], "k=scale_impl_c09(1.5, 4.0)", None),
         "q_default_same_name": ([("method",), ("evtmethod",)], ["method", "evtmethod"], "s=j.rho()", None),
         "q_prop_other": ([("prop2",)], ["prop2"], "attr(2)", "['b']"),
+        "q_twice_helper": ([("rw",), ("rw",), ("method",), ("method",)], ["rw", "rw", "method", "method"], "e.cjets('d', 'calib').First().pt() + e.cjets('d', 'calib').First().pt()", "'calib', 'calib'"),
+        "q_twice_called_lambda": ([("rw",), ("rw",), ("method",), ("method",)], ["rw", "rw", "method", "method"], "e.cjets('d', 'calib').First().pt() + e.cjets('d', 'calib').First().pt()", "'calib', 'calib'"),
+        "q_twice_nested": ([("rw",), ("rw",), ("method",), ("method",)], ["rw", "rw", "method", "method"], "e.cjets('d', 'calib').First().pt() + e.cjets('d', 'calib').First().pt()", "'calib', 'calib'"),
         "q_param_named_like_registered": ([], [], "scale_impl_c09(1.5)", "2.0"),
         "q_param_named_like_registered_nested": ([], [], "scale_impl_c09(1.5))", "2.0"),
         "q_param_named_like_registered_py": ([], [], "one_c09(1.5)", "MetaData"),
@@ -584,6 +602,10 @@ def directed(ctx):
             continue
         if name == "q_prop_types" and [c[1] for c in m.LOG] != [(float, "n")]:
             ctx.violation("directed:parameters-not-passed-by-value", f"{name}: the callback received {[c[1] for c in m.LOG]}, the subscript holds (float, 'n')", w)
+            continue
+        handed = [c[1] for c in m.LOG if c[0] == "rw"]
+        if any(h != "e.cjets('d')" for h in handed):
+            ctx.violation("directed:callback-handed-another-sites-rewrite", f"{name}: the rewriting callback was handed {handed}; each call site is written e.cjets('d')", w)
             continue
         got_calls = sorted(c[:1] for c in m.LOG)
         if got_calls != sorted(calls):
